@@ -50,6 +50,13 @@ func (e *Engine) genDesc() *Desc {
 			hh := h
 			diff.DeclaredV0Classes = append(diff.DeclaredV0Classes, &hh)
 			classes[h] = cairo0Class(&hh)
+			if r.Chance(1, 30) {
+				// DeclaredV0Classes is a slice: the same hash twice (the legacy backend cannot revert
+				// such a block: known finding, ends the history at its revert)
+				h2 := h
+				diff.DeclaredV0Classes = append(diff.DeclaredV0Classes, &h2)
+				e.hit("diff:class-listed-twice")
+			}
 		}
 	}
 	if r.Chance(1, 4) {
@@ -92,7 +99,15 @@ func (e *Engine) genDesc() *Desc {
 	}
 	if r.Chance(1, 3) {
 		fx := sierraFxs[r.Intn(len(sierraFxs))]
-		if _, ok := prev.Classes[fx.hash]; !ok {
+		_, registered := prev.Classes[fx.hash]
+		_, declared := prev.Casm[fx.hash]
+		if registered && !declared && r.Chance(1, 8) {
+			// registered earlier as the undeclared class of a deployed contract, declared now (its
+			// revert fails on the commitment: known finding, ends the history there)
+			registered = false
+			e.hit("diff:declare-sierra-registered-earlier")
+		}
+		if !registered {
 			casm := fx.casm1
 			if v2 {
 				casm = fx.casm2
@@ -106,6 +121,11 @@ func (e *Engine) genDesc() *Desc {
 			if cur, ok := prev.Casm[fx.hash]; ok && cur.Equal(&fx.casm1) {
 				if _, now := diff.DeclaredV1Classes[fx.hash]; !now {
 					diff.MigratedClasses[felt.SierraClassHash(fx.hash)] = felt.CasmClassHash(fx.casm2)
+					if r.Chance(1, 10) {
+						// a migration to another hash than the one juno computed (known finding)
+						diff.MigratedClasses[felt.SierraClassHash(fx.hash)] = felt.CasmClassHash(*lib.F(0xabc0 + uint64(r.Intn(8))))
+						e.hit("diff:migration-foreign-hash")
+					}
 					break
 				}
 			}
